@@ -438,11 +438,13 @@ Fixpoint deliveries (delivered : list (Z * Z)) (ops : list op) (outs : list aout
 Inductive case :=
 | CSplit (dmax : Z) (sn : Z) (sp : spayload)   (* real Writer with data_max_size_serialized = dmax *)
 | CHonest (ws : wtable) (arr : list arrival)   (* fragments made by data_frag_msg, fed to the assembler *)
-| CRaw (ops : list op).                        (* arbitrary DataFrag field values *)
+| CRaw (ops : list op)                         (* arbitrary DataFrag field values *)
+| CReader (ws : wtable) (arr : list arrival).  (* as CHonest, through a real Reader (hand-over guard) *)
 
 Inductive obs :=
 | OSplit (data : option bytes) (frags : list datafrag)  (* DATA payload / DATAFRAGs parsed back from the wire *)
 | OAsm (outs : list aout)
+| ODeliv (ds : list (option (Z * Z * bytes)))  (* per arrival: the cache change added to the topic cache *)
 | OWriterPanic
 | OInvalid.                                    (* case outside the modelled input space *)
 
@@ -466,6 +468,9 @@ Definition wf_case (c : case) : bool :=
   | CSplit dmax sn sp => (1 <=? dmax) && (dmax <=? 65535) && (payload_size sp <? 2 ^ 32) && sp_okb sp
   | CHonest ws arr => forallb (arrival_okb ws) arr
   | CRaw ops => forallb op_okb ops
+  | CReader ws arr =>
+      forallb (arrival_okb ws) arr
+      && forallb (fun a => match a with AFrag _ _ _ => true | AGc _ _ => false end) arr
   end.
 
 Definition run (c : case) : obs :=
@@ -478,6 +483,9 @@ Definition run (c : case) : obs :=
       end
   | CHonest ws arr => OAsm (run_ops new_datafrag 0 [] (map (to_op ws) arr))
   | CRaw ops => OAsm (run_ops new_datafrag 0 [] ops)
+  | CReader ws arr =>
+      let ops := map (to_op ws) arr in
+      ODeliv (deliveries [] ops (run_ops new_datafrag 0 [] ops))
   end.
 
 Definition bytes_eqb (a b : bytes) : bool :=
@@ -512,10 +520,23 @@ Fixpoint aouts_eqb (a b : list aout) : bool :=
   | x :: a', y :: b' => aout_eqb x y && aouts_eqb a' b'
   | _, _ => false
   end.
+Definition deliv_eqb (a b : option (Z * Z * bytes)) : bool :=
+  match a, b with
+  | None, None => true
+  | Some (w, sn, x), Some (w', sn', y) => (w =? w') && (sn =? sn') && bytes_eqb x y
+  | _, _ => false
+  end.
+Fixpoint delivs_eqb (a b : list (option (Z * Z * bytes))) : bool :=
+  match a, b with
+  | [], [] => true
+  | x :: a', y :: b' => deliv_eqb x y && delivs_eqb a' b'
+  | _, _ => false
+  end.
 Definition obs_eqb (a b : obs) : bool :=
   match a, b with
   | OSplit d f, OSplit d' f' => obytes_eqb d d' && dfs_eqb f f'
   | OAsm o, OAsm o' => aouts_eqb o o'
+  | ODeliv d, ODeliv d' => delivs_eqb d d'
   | OWriterPanic, OWriterPanic => true
   | OInvalid, OInvalid => true
   | _, _ => false
@@ -533,7 +554,10 @@ Definition obs_eqb (a b : obs) : bool :=
      set of fragment numbers (per attempt), nothing otherwise; the missing-fragment report is the
      complement of what arrived; no panic.
    CRaw: no panic, one observation per DATAFRAG; whatever is handed over has the size that the
-     completing DATAFRAG announces. *)
+     completing DATAFRAG announces.
+   CReader: the cache changes the Reader adds to its topic cache are exactly: per sample, one
+     change carrying the written bytes, at the first arrival that completes the sample's fragment
+     set ([deliveries] uses of the DATAFRAG only the writer and the sequence number). *)
 Fixpoint frags_okb (sn fs total : Z) (k : Z) (fr : list datafrag) : bool :=
   match fr with
   | [] => false
@@ -572,5 +596,7 @@ Definition ok (c : case) (o : obs) : bool :=
            end
   | CHonest ws arr, OAsm outs => aouts_eqb outs (spec_outs ws [] arr)
   | CRaw ops, OAsm outs => raw_okb ops outs
+  | CReader ws arr, ODeliv ds =>
+      delivs_eqb ds (deliveries [] (map (to_op ws) arr) (spec_outs ws [] arr))
   | _, _ => false
   end.
